@@ -124,7 +124,7 @@ def main():
         else:
             rep.count("rejected")
             rep.bad(v["key"], "%s %s (%d input bytes): %s" % (j["tool"], j["what"], len(j["data"]), v["detail"]),
-                    {"tool": j["tool"], "args": j["args"], "data_hex": j["data"][:80].hex(), "verdict": v})
+                    {"tool": j["tool"], "args": j["args"], "data_b64": base64.b64encode(j["data"]).decode(), "verdict": v})
     # gating canaries
     good = next(c for c, v in zip(cases, vds) if v["ok"] and c["fmt"] == "HRS")
     can = [dict(good, got=dict(good["got"], nsamples=good["got"]["nsamples"] - 3)), dict(good, got=dict(good["got"], w=good["got"]["w"] + 1)),
